@@ -85,19 +85,22 @@ scalar Stamp
 scalar Tag
 scalar Plain
 scalar Loose
+scalar Code
 interface Node { id: ID! at: Stamp }
-type Event implements Node { id: ID! at: Stamp when: Stamp! maybe: Stamp times: [Stamp!] grid: [[Stamp]] tag: Tag plain: Plain loose: Loose inner: Event }
+type Event implements Node { id: ID! at: Stamp when: Stamp! maybe: Stamp times: [Stamp!] grid: [[Stamp]] tag: Tag plain: Plain loose: Loose code: Code inner: Event }
 type Other implements Node { id: ID! at: Stamp }
 input Window { start: Stamp! end: Stamp stamps: [Stamp!] nested: Window tag: Tag }
-type Query { event(at: Stamp, after: Stamp, w: Window, ws: [Window!], many: [Stamp], tag: Tag): Event node: Node }
+union Result = Event | Other
+type Query { event(at: Stamp, after: Stamp, w: Window, ws: [Window!], many: [Stamp], tag: Tag): Event node: Node search: [[Result]] }
 """
 QUERIES_FULL = """
 fragment Times on Event { when times }
 query GetEvent($after: Stamp!, $w: Window, $ws: [Window!], $tag: Tag!) {
-  event(after: $after, w: $w, ws: $ws, tag: $tag) { id when maybe times grid tag plain loose inner { when maybe } ...Times }
+  event(after: $after, w: $w, ws: $ws, tag: $tag) { id when maybe times grid tag plain loose code inner { when maybe } ...Times }
 }
 query GetNode { node { id at ... on Event { when } } }
 query Second($after: Stamp!) { event(after: $after) { id } }
+query Search { search { __typename ... on Event { at when } ... on Other { at } } }
 """
 HELPER_SRC = '''
 CALLS = []
@@ -107,6 +110,12 @@ def parse_stamp(v):
 def ser_stamp(v):
     CALLS.append(("ser_stamp", v))
     return "S:" + str(getattr(v, "v", v))
+class Code:
+    """a type that is its own parse function (type == parse in the configuration)"""
+    def __init__(self, v):
+        CALLS.append(("parse_code", v))
+        self.v = v
+    def __eq__(self, o): return isinstance(o, Code) and o.v == self.v
 class Stamp:
     def __init__(self, v): self.v = v
     def __eq__(self, o): return isinstance(o, Stamp) and o.v == self.v
@@ -120,7 +129,7 @@ def ser_tag(v):
 '''
 
 
-def bounded_scalar_positions(tier, seed):
+def _scalar_positions(flavour, extra_opts, client_kw):
     """statement of C07 on a generated client: instrumented parse / serialize functions record every call.
     configurations: Stamp = dotted type + parse + serialize; Tag = builtin `str` type with dotted parse + serialize;
     Plain = pydantic-native type only; Loose = unconfigured"""
@@ -136,17 +145,17 @@ def bounded_scalar_positions(tier, seed):
     g = None
     try:
         try:
-            g = generate_client(SCHEMA_FULL, QUERIES_FULL, scalars={
+            g = generate_client(SCHEMA_FULL, QUERIES_FULL, **extra_opts, scalars={
                 "Stamp": {"type": f"{helper}.Stamp", "parse": f"{helper}.parse_stamp", "serialize": f"{helper}.ser_stamp"},
                 "Tag": {"type": "str", "parse": f"{helper}.parse_tag", "serialize": f"{helper}.ser_tag"},
-                "Plain": {"type": "int"}})
+                "Plain": {"type": "int"}, "Code": {"type": f"{helper}.Code", "parse": f"{helper}.Code"}})
             hm = importlib.reload(__import__(helper))
             mod = g.module()
             it = g.module("input_types")
         except Exception as e:      # noqa
             return dict(function="ariadne_codegen.main:client", name="bounded.scalar-positions", kind="bounded stand-in (end-to-end, native)",
                         domain="generation", cases=1, failed=1,
-                        failures=[dict(inputs=dict(scenario="package-generates-and-imports (every needed import is emitted)"),
+                        failures=[dict(inputs=dict(scenario=f"{flavour}:package-generates-and-imports (every needed import is emitted)"),
                                        failed=["every-needed-import-is-emitted"], outcome=f"{type(e).__name__}: {str(e)[:300]}")])
         S = hm.Stamp
         sent = []
@@ -156,9 +165,10 @@ def bounded_scalar_positions(tier, seed):
             body = json.loads(request.content)
             sent.append(body)
             return httpx.Response(200, json={"data": state["data"]})
-        client = mod.Client(url="http://x/graphql", http_client=httpx.AsyncClient(transport=httpx.MockTransport(handler)))
+        client = mod.Client(url="http://x/graphql", http_client=httpx.AsyncClient(transport=httpx.MockTransport(handler)), **client_kw)
 
         def scenario(name, method, kw, data, expect_vars, expect_ser, expect_parse, read):
+            name = f"{flavour}:{name}"
             nonlocal cases
             cases += 1
             hm.CALLS.clear()
@@ -182,7 +192,7 @@ def bounded_scalar_positions(tier, seed):
             if bad:
                 fails.append(dict(inputs=dict(scenario=name), failed=bad, outcome=None))
 
-        full = {"event": {"id": "1", "when": "w", "maybe": None, "times": ["t1", "t2"], "grid": [["g1", None], []], "tag": "x", "plain": 5,
+        full = {"event": {"id": "1", "when": "w", "maybe": None, "times": ["t1", "t2"], "grid": [["g1", None], []], "tag": "x", "plain": 5, "code": "c1",
                           "loose": {"any": [1]}, "inner": {"when": "iw", "maybe": "im"}}}
 
         def read_full(res):
@@ -190,10 +200,12 @@ def bounded_scalar_positions(tier, seed):
             want = dict(when=S("P:w"), maybe=None, times=[S("P:t1"), S("P:t2")], grid=[[S("P:g1"), None], []], tag="tag:x", plain=5,
                         loose={"any": [1]})
             bad = [k for k, v in want.items() if getattr(e, k) != v]
+            if not isinstance(e.code, hm.Code) or e.code.v != "c1":
+                bad.append("code")
             if e.inner.when != S("P:iw") or e.inner.maybe != S("P:im"):
                 bad.append("inner")
             return bad
-        parses_full = [("parse_stamp", x) for x in ("w", "t1", "t2", "g1", "iw", "im")] + [("parse_tag", "x")]
+        parses_full = [("parse_stamp", x) for x in ("w", "t1", "t2", "g1", "iw", "im")] + [("parse_tag", "x"), ("parse_code", "c1")]
         # (nullable top-level variables of a scalar with serializer are the recorded finding F05 and have their own witness)
         scenario("results-all-positions/required-variables-only", "get_event", dict(after=S("a"), tag="tg"), full,
                  {"after": "S:a", "tag": "out:tg"}, [("ser_stamp", S("a")), ("ser_tag", "tg")], parses_full, read_full)
@@ -207,11 +219,25 @@ def bounded_scalar_positions(tier, seed):
                  {"after": "S:b"}, [("ser_stamp", S("b"))], [], lambda res: [] if res.event.id == "2" else ["id"])
         scenario("interface-position-and-null", "get_node", {}, {"node": {"__typename": "Event", "id": "1", "at": None, "when": "nw"}},
                  {}, [], [("parse_stamp", "nw")], lambda res: [] if res.node.at is None and res.node.when == S("P:nw") else ["node"])
+        scenario("nested-list-of-union-members", "search", {},
+                 {"search": [[{"__typename": "Event", "at": "u0", "when": "u1"}, None, {"__typename": "Other", "at": "u2"}], [], [{"__typename": "Other", "at": None}]]},
+                 {}, [], [("parse_stamp", "u0"), ("parse_stamp", "u1"), ("parse_stamp", "u2")],
+                 lambda res: [] if res.search[0][0].when == S("P:u1") and res.search[0][1] is None and res.search[0][2].at == S("P:u2")
+                 and res.search[2][0].at is None else ["search"])
         scenario("interface-position-other-type", "get_node", {}, {"node": {"__typename": "Other", "id": "1", "at": "oa"}},
                  {}, [], [("parse_stamp", "oa")], lambda res: [] if res.node.at == S("P:oa") else ["node.at"])
     finally:
         if g is not None:
             g.cleanup()
+    return dict(cases=cases, failed=len(fails), failures=fails)
+
+
+def bounded_scalar_positions(tier, seed):
+    cases, fails = 0, []
+    for flavour, extra_opts, client_kw in (("plain", {}, {}), ("opentelemetry+tracer", {"opentelemetry_client": True}, {"tracer": "pyvc"})):
+        r = _scalar_positions(flavour, extra_opts, client_kw)
+        cases += r["cases"]
+        fails += r["failures"]
     return dict(function="ariadne_codegen.main:client", name="bounded.scalar-positions", kind="bounded stand-in (end-to-end, native)",
                 domain="4 scalar configurations (dotted type+parse+serialize, builtin type with dotted parse/serialize, native type only, "
                        "unconfigured) x result positions (non-null, nullable null/present, list, nested list with null, nested object, fragment "
